@@ -78,7 +78,8 @@ func Generate(t *rapid.T, o Options) *Prog {
 	}
 	var b strings.Builder
 	if g.n(0, 5, "doctype") == 0 {
-		b.WriteString(g.pick("doctype", "<!DOCTYPE html>", "<!doctype html>", "<!DOCTYPE html PUBLIC \"-//W3C//DTD HTML 4.01//EN\">", "<!DocType html>\n"))
+		// (a DOCTYPE ends at its first '>', whatever looks like a tag or a quoted string inside it)
+		b.WriteString(g.pick("doctype", "<!DOCTYPE html>", "<!doctype html>", "<!DOCTYPE html PUBLIC \"-//W3C//DTD HTML 4.01//EN\">", "<!DocType html>\n", "<!DOCTYPE html>", "<!DOCTYPE <textarea>", "<!DOCTYPE html <p title=\">\">", "<!doctype <b x='>'>"))
 	}
 	g.content(&b, "", 0)
 	g.p.Main = b.String()
